@@ -37,6 +37,8 @@ pub struct Profile {
     /// deliberately loose (it may report `used generated file ... but has no dependency path`), so only the
     /// closure oracle (no step outside the requested closure runs) is evaluated for such a history.
     pub hazard_pct: usize,
+    /// generate edits that add or drop a step's depfile/deps binding
+    pub deps_toggle: bool,
 }
 
 pub const EDIT_NAMES: [&str; 14] = [
@@ -62,6 +64,7 @@ impl Default for Profile {
             repeat_pct: 15,
             symlink_pct: 10,
             hazard_pct: 0,
+            deps_toggle: true,
         }
     }
 }
@@ -365,7 +368,7 @@ pub fn apply_edit(world: &mut World, t: &mut Tape, prof: &Profile) -> Option<Str
             let has_includes = world.includes.get(&uid).map(|v| !v.is_empty()).unwrap_or(false);
             let p = editable(world);
             let s = p.step_mut(uid)?;
-            let what = if c >= 3 << 14 && prof.gen.deps && !s.regen && !(s.deps != 0 && has_includes) {
+            let what = if c >= 3 << 14 && prof.gen.deps && prof.deps_toggle && !s.regen && !(s.deps != 0 && has_includes) {
                 // how dependencies are reported is not part of what makes a step up to date: adding or dropping the
                 // depfile / deps binding must not re-run it, and the next real run reports accordingly
                 s.deps = match s.deps {
